@@ -121,6 +121,9 @@ pub enum Flavour {
     Full,
     /// all methods overridden; only `write_bytes_aligned` can fail (operations = its calls)
     BytesOnly,
+    /// all methods overridden; operation k fails once, every later operation is accepted again (a
+    /// transient fault, or a fixed-capacity buffer that refuses a large write and takes a smaller one)
+    Transient,
 }
 
 /// A sink that fails on its `k`-th operation (0-based). `k = usize::MAX` never fails.
@@ -143,8 +146,12 @@ impl FailingSink {
             self.calls_after_failure += 1;
         }
         if counts {
-            if self.ops == self.k {
+            if self.ops == self.k && !(self.flavour == Flavour::Transient && self.failed) {
                 self.failed = true;
+                if self.flavour == Flavour::Transient {
+                    // the failed operation is consumed; the sink works again afterwards
+                    self.ops += 1;
+                }
                 return Err(SinkFailure(self.k));
             }
             self.ops += 1;
